@@ -301,6 +301,24 @@ Definition is_key_field_path (p : path) : bool :=
   | _ => false
   end.
 
+(* selections that name INTERIOR nodes (outside the property's domain of leaf sets):
+   correspondence only -- what is taken from beneath a selected node *)
+Definition run_c14_interior (st : dstate) (xs : list sexp) : outcome :=
+  match xs with
+  | [SAtom sid; tr; v; sub; rem; ext; extk] =>
+      match dec_typeref tr, dec_value v, dec_paths sub, dec_tres rem, dec_tres ext, dec_tres extk, ds_schema st sid with
+      | Some tr, Some v, Some sub, Some rem, Some ext, Some extk, Some s =>
+          let sset := ps_of_paths sub in
+          let teq (t : tres) (m : value) := match t with TOk (Some o) => value_deep_eqb o m | _ => false end in
+          mkOut (chk (teq rem (remove s tr v sset)) "corr remove (selection with interior nodes)" @@
+                 chk (teq ext (extract s tr false v sset)) "corr extract (selection with interior nodes)" @@
+                 chk (teq extk (extract s tr true v sset)) "corr extract with keys (selection with interior nodes)")
+                3 1 ["interior"]
+      | _, _, _, _, _, _, _ => out_bad "c14.interior decode"
+      end
+  | _ => out_bad "c14.interior"
+  end.
+
 Definition run_c14 (st : dstate) (xs : list sexp) : outcome :=
   match xs with
   | [SAtom sid; tr; v; fs; sub; rem; ext; merged; extall] =>
